@@ -560,7 +560,7 @@ func (e *env) queryState(rng *rand.Rand, exhaustive bool) {
 }
 
 func body(r *ev.Run) {
-	r.Rule("states = end (after a restart in a quarter of them), one mid-history point and half of the reorganisation points of seeded random histories (forks of any depth, several stale branches, orphan chains, late parents, reorganisations, zero-work headers). Plus long stores (prefix of 800/1500/30 headers, then a reorganisation over 700/520/2050 heights) queried by sample. Small states (<=12 headers): ALL queries — every hash for header/state, every ordered pair for ancestors, every multiset of size <=3 for common ancestor, every (height,count) window over -1..max+2 x 0..5, windows with a negative start or length, windows whose start or length is 2^31-1 / 2^31 / 2^32 / 2^32+1 / 2^40; large states (up to 120 headers): seeded samples. Oracle = reference model with weakest readings (by-height: subset of stored-in-window and superset of longest-in-window; ancestors: contains every strictly-between header, nothing off the path, no duplicates, endpoints optional, order free; unrelated headers => never 200; common ancestor asserted for lists with minimum height >= 1). Headers-table digest compared around reads. evaluations = states queried; distinct = distinct (endpoint, relation/state class) cells; non-trivial = all.")
+	r.Rule("states = end (after a restart in a quarter of them), one mid-history point and half of the reorganisation points of seeded random histories (forks of any depth, several stale branches, orphan chains, late parents, reorganisations, zero-work headers). Plus long stores (prefix of 30/800/1500 headers, then a reorganisation over 2050/700/520 heights) queried by sample and for their farthest pairs (tip / stale tip against genesis and the first blocks). Small states (<=12 headers): ALL queries — every hash for header/state, every ordered pair for ancestors, every multiset of size <=3 for common ancestor, every (height,count) window over -1..max+2 x 0..5, windows with a negative start or length, windows whose start or length is 2^31-1 / 2^31 / 2^32 / 2^32+1 / 2^40; large states (up to 120 headers): seeded samples. Oracle = reference model with weakest readings (by-height: subset of stored-in-window and superset of longest-in-window; ancestors: contains every strictly-between header, nothing off the path, no duplicates, endpoints optional, order free; unrelated headers => never 200; common ancestor asserted for lists with minimum height >= 1). Headers-table digest compared around reads. evaluations = states queried; distinct = distinct (endpoint, relation/state class) cells; non-trivial = all.")
 	r.Assume("reference model transcribes the statement", "queries whose hash-linked ancestry crosses a parent stored after its child are skipped (stored heights unrelated; statement silent)", "5xx on degenerate arguments are C16's subject, not asserted here")
 	r.Require("ancestors_descendant", 200)
 	r.Require("ancestors_unrelated-equal-height", 20)
@@ -577,7 +577,7 @@ func body(r *ev.Run) {
 		caseID := fmt.Sprintf("long/%d", i)
 		r.Do(caseID, func() {
 			rng := r.Rand(caseID)
-			hist := gen.DeepReorg(rng, rig.Genesis(), []int{800, 1500, 30}[i%3], []int{700, 520, 2050}[i%3])
+			hist := gen.DeepReorg(rng, rig.Genesis(), []int{30, 800, 1500}[i%3], []int{2050, 700, 520}[i%3])
 			if err := st.Reset(); err != nil {
 				r.Violate("harness|reset", err.Error(), caseID, nil)
 				return
@@ -592,6 +592,30 @@ func body(r *ev.Run) {
 				}
 			}
 			e.queryState(rng, false)
+			// the farthest pairs of the store: tip / stale tip against genesis and the first blocks (paths of 1500-2100 headers)
+			if !e.failed {
+				path := m.LongestPath()
+				tipN := path[len(path)-1]
+				var staleTop *refmodel.Node
+				for _, n := range m.Order {
+					if n.State == refmodel.Stale && (staleTop == nil || n.Height > staleTop.Height) {
+						staleTop = n
+					}
+				}
+				for _, lo := range []*refmodel.Node{path[0], path[1], path[2]} {
+					for _, hi := range []*refmodel.Node{tipN, path[len(path)-2], staleTop} {
+						if hi == nil || e.failed {
+							continue
+						}
+						e.ancestors(hi, lo)
+						e.commonAncestor([]*refmodel.Node{hi, lo})
+					}
+				}
+				if staleTop != nil && !e.failed {
+					e.commonAncestor([]*refmodel.Node{tipN, staleTop})
+				}
+				r.Count("farthest_pairs_queried", 1)
+			}
 			r.Count("long_stores_queried", 1)
 			r.Case("", false)
 		})
